@@ -127,7 +127,7 @@ theorem inv_doStart (c : Config) (st : State) (h : Inv st) (hu : st.conn = .unin
       cases c.reconnectAuto <;> simp
     · simp [closeServer, Inv]
 
-theorem inv_doStop (st : State) (h : Inv st) : Inv (doStop st).1 := by
+theorem inv_doStop (c : Config) (st : State) (h : Inv st) : Inv (doStop c st).1 := by
   have hA : Inv { st with wd := if covered .watchdog then .off else st.wd
                           logConn := st.logConn && !covered .logConnections } := by
     obtain ⟨h1, h2, h3, h4⟩ := h
@@ -168,14 +168,17 @@ theorem inv_step (c : Config) (st : State) (op : Op) (h : Inv st) : Inv (step c 
   | potentialParents => simp only [step]; split
                         · simpa [Inv] using h
                         · exact h
+  | searchRequest => simp only [step]; split
+                     · simpa [Inv] using h
+                     · exact h
   | loss r => simp only [step]; split
               · exact inv_closeServer _ _ h
               · exact h
-  | tick => simp only [step]; exact inv_tickWd _ _ (by simpa [Inv] using h)
+  | tick => simp only [step]; exact inv_tickWd _ _ (by simpa [Inv, ageAll] using h)
   | setSrvUp b => simpa [step, Inv] using h
   | setSrvReply r => simpa [step, Inv] using h
   | stop => simp only [step]; split
-            · exact inv_doStop _ h
+            · exact inv_doStop c _ h
             · exact h
 
 theorem inv_run (c : Config) (ops : List Op) : ∀ st, Inv st → Inv (run c st ops).1 := by
@@ -260,8 +263,8 @@ theorem count_doStart (c : Config) (st : State) (hs : st.session = false) :
     · simp [nDestr, nInit, b2n, hs]
     · simp [closeServer, nDestr, nInit, b2n, hs]
 
-theorem count_doStop (st : State) :
-    nDestr (doStop st).2 + b2n (doStop st).1.session = b2n st.session ∧ nInit (doStop st).2 = 0 := by
+theorem count_doStop (c : Config) (st : State) :
+    nDestr (doStop c st).2 + b2n (doStop c st).1.session = b2n st.session ∧ nInit (doStop c st).2 = 0 := by
   have := count_closeServer .requested { st with wd := if covered .watchdog then .off else st.wd
                                                  logConn := st.logConn && !covered .logConnections }
   unfold doStop
@@ -291,19 +294,20 @@ theorem count_step (c : Config) (st : State) (op : Op) (h : Inv st) :
   | search => simp only [step]; split <;> simp [nDestr, nInit]
   | wishlistInterval => simp only [step]; split <;> simp [nDestr, nInit]
   | potentialParents => simp only [step]; split <;> simp [nDestr, nInit]
+  | searchRequest => simp only [step]; split <;> simp [nDestr, nInit]
   | loss r =>
     simp only [step]; split
     · have := count_closeServer r st; omega
     · simp [nDestr, nInit]
   | tick =>
     simp only [step]
-    have := count_tickWd c { st with pp := agePP st.pp } (by simpa [Inv] using h)
-    simpa using this
+    have := count_tickWd c (ageAll st) (by simpa [Inv, ageAll] using h)
+    simpa [ageAll] using this
   | setSrvUp b => simp [step, nDestr, nInit]
   | setSrvReply r => simp [step, nDestr, nInit]
   | stop =>
     simp only [step]; split
-    · have := count_doStop st; omega
+    · have := count_doStop c st; omega
     · simp [nDestr, nInit]
 
 theorem count_run (c : Config) (ops : List Op) : ∀ st, Inv st →
@@ -387,7 +391,7 @@ theorem reset_doStart (c : Config) (st : State) (h : obsClosed (doStart c st).2 
       apply reset_closeServer
       simpa [obsClosed] using h
 
-theorem reset_doStop (st : State) (h : obsClosed (doStop st).2 = true) : cleared (doStop st).1 := by
+theorem reset_doStop (c : Config) (st : State) (h : obsClosed (doStop c st).2 = true) : cleared (doStop c st).1 := by
   unfold doStop at h ⊢
   simp only [] at h ⊢
   have := reset_closeServer _ _ h
@@ -413,6 +417,7 @@ theorem reset_step (c : Config) (st : State) (op : Op) (hop : ∀ j d res ul, op
   | search => simp only [step] at h; split at h <;> simp [obsClosed] at h
   | wishlistInterval => simp only [step] at h; split at h <;> simp [obsClosed] at h
   | potentialParents => simp only [step] at h; split at h <;> simp [obsClosed] at h
+  | searchRequest => simp only [step] at h; split at h <;> simp [obsClosed] at h
   | loss r =>
     simp only [step] at h ⊢; split at h
     · rename_i hc; rw [if_pos hc]; exact reset_closeServer r st h
@@ -422,40 +427,43 @@ theorem reset_step (c : Config) (st : State) (op : Op) (hop : ∀ j d res ul, op
   | setSrvReply r => simp [step, obsClosed] at h
   | stop =>
     simp only [step] at h ⊢; split at h
-    · rename_i hc; rw [if_pos hc]; exact reset_doStop st h
+    · rename_i hc; rw [if_pos hc]; exact reset_doStop c st h
     · simp [obsClosed] at h
 
 /-! ## stop is final -/
 
-theorem covered_all (k : Site) (h1 : k ≠ .directConnect) (h2 : k ≠ .indirectConnect) : covered k = true := by
-  cases k <;> first | exact absurd rfl h1 | exact absurd rfl h2 | decide
+theorem covered_all (k : Site) : covered k = true := by
+  cases k <;> decide
 
 /-- nothing of the library is left: no task, no socket, no session, and `stop()` has run -/
 def Quiet (st : State) : Prop :=
   st.wd = .off ∧ st.ping = false ∧ st.reader = false ∧ st.userMgmt = false ∧ st.transferMgmt = false ∧
   st.transferProgress = false ∧ st.logConn = false ∧ st.scan = false ∧ st.wishlist = false ∧ st.tracked = [] ∧
   st.searchTimers = 0 ∧ st.wishlistTimers = 0 ∧ st.pp = [] ∧ st.conn ≠ .connected ∧ st.listening = 0 ∧
-  st.session = false ∧ st.started = true ∧ st.stopped = true
+  st.session = false ∧ st.started = true ∧ st.stopped = true ∧ st.sr = [] ∧ st.orphans = []
 
-theorem quiet_alive (st : State) (h : Quiet st) : alive st = [] ∧ openSockets st = 0 := by
-  obtain ⟨h1, h2, h3, h4, h5, h6, h7, h8, h9, h10, h11, h12, h13, h14, h15, _, _, _⟩ := h
-  simp [alive, openSockets, h1, h2, h3, h4, h5, h6, h7, h8, h9, h10, h11, h12, h13, h14, h15]
+theorem quiet_alive (c : Config) (st : State) (h : Quiet st) : alive c st = [] ∧ openSockets st = 0 := by
+  obtain ⟨h1, h2, h3, h4, h5, h6, h7, h8, h9, h10, h11, h12, h13, h14, h15, _, _, _, h19, h20⟩ := h
+  simp [alive, raceChildren, openSockets, h1, h2, h3, h4, h5, h6, h7, h8, h9, h10, h11, h12, h13, h14, h15, h19, h20]
 
-theorem quiet_doStop (st : State) (h : Inv st) (hs : st.started = true) : Quiet (doStop st).1 := by
-  have c1 := covered_all .watchdog (by decide) (by decide)
-  have c2 := covered_all .logConnections (by decide) (by decide)
-  have c3 := covered_all .sharesScan (by decide) (by decide)
-  have c4 := covered_all .userMgmt (by decide) (by decide)
-  have c5 := covered_all .tracking (by decide) (by decide)
-  have c6 := covered_all .transferMgmt (by decide) (by decide)
-  have c7 := covered_all .transferProgress (by decide) (by decide)
-  have c8 := covered_all .wishlist (by decide) (by decide)
-  have c9 := covered_all .searchTimer (by decide) (by decide)
-  have c10 := covered_all .wishlistTimer (by decide) (by decide)
-  have c11 := covered_all .potentialParent (by decide) (by decide)
+theorem quiet_doStop (c : Config) (st : State) (h : Inv st) (hs : st.started = true) : Quiet (doStop c st).1 := by
+  have c1 := covered_all .watchdog
+  have c2 := covered_all .logConnections
+  have c3 := covered_all .sharesScan
+  have c4 := covered_all .userMgmt
+  have c5 := covered_all .tracking
+  have c6 := covered_all .transferMgmt
+  have c7 := covered_all .transferProgress
+  have c8 := covered_all .wishlist
+  have c9 := covered_all .searchTimer
+  have c10 := covered_all .wishlistTimer
+  have c11 := covered_all .potentialParent
+  have c12 := covered_all .searchReply
+  have c13 := covered_all .directConnect
+  have c14 := covered_all .indirectConnect
   obtain ⟨h1, h2, h3, h4⟩ := h
   unfold doStop closeServer
-  simp only [c1, c2, c3, c4, c5, c6, c7, c8, c9, c10, c11]
+  simp only [c1, c2, c3, c4, c5, c6, c7, c8, c9, c10, c11, c12, c13, c14]
   by_cases hc : st.conn = .closed ∨ st.conn = .closing
   · have hn : st.conn ≠ .connected := by rcases hc with hc | hc <;> simp [hc]
     obtain ⟨p1, p2, p3⟩ := h1 hn
@@ -464,8 +472,9 @@ theorem quiet_doStop (st : State) (h : Inv st) (hs : st.started = true) : Quiet 
 
 theorem quiet_step (c : Config) (st : State) (op : Op) (h : Quiet st) :
     Quiet (step c st op).1 ∧ ∀ o ∈ (step c st op).2, o = .invalid ∨ o = .refused := by
-  obtain ⟨h1, h2, h3, h4, h5, h6, h7, h8, h9, h10, h11, h12, h13, h14, h15, h16, h17, h18⟩ := h
-  have hq : Quiet st := ⟨h1, h2, h3, h4, h5, h6, h7, h8, h9, h10, h11, h12, h13, h14, h15, h16, h17, h18⟩
+  obtain ⟨h1, h2, h3, h4, h5, h6, h7, h8, h9, h10, h11, h12, h13, h14, h15, h16, h17, h18, h19, h20⟩ := h
+  have hq : Quiet st :=
+    ⟨h1, h2, h3, h4, h5, h6, h7, h8, h9, h10, h11, h12, h13, h14, h15, h16, h17, h18, h19, h20⟩
   cases op with
   | start => simp [step, h17, hq]
   | login => simp [step, h14, hq]
@@ -475,11 +484,12 @@ theorem quiet_step (c : Config) (st : State) (op : Op) (h : Quiet st) :
   | search => simp [step, h18, hq]
   | wishlistInterval => simp [step, h3, hq]
   | potentialParents => simp [step, h3, hq]
+  | searchRequest => simp [step, h3, hq]
   | loss r => simp [step, h14, hq]
   | tick =>
-    simp only [step, h13, agePP, tickWd, h1, List.filter_nil, List.map_nil]
+    simp only [step, ageAll, h13, h19, h20, agePP, tickWd, h1, List.filter_nil, List.map_nil]
     refine ⟨?_, by simp⟩
-    exact ⟨rfl, h2, h3, h4, h5, h6, h7, h8, h9, h10, h11, h12, rfl, h14, h15, h16, h17, h18⟩
+    exact ⟨rfl, h2, h3, h4, h5, h6, h7, h8, h9, h10, h11, h12, rfl, h14, h15, h16, h17, h18, rfl, rfl⟩
   | setSrvUp b => simp only [step]; exact ⟨by simpa [Quiet] using hq, by simp⟩
   | setSrvReply r => simp only [step]; exact ⟨by simpa [Quiet] using hq, by simp⟩
   | stop => simp [step, h18, hq]
@@ -501,9 +511,12 @@ theorem quiet_run (c : Config) (ops : List Op) : ∀ st, Quiet st →
 
 /-! ## the reconnect watchdog -/
 
+theorem ageAll_wd (st : State) : (ageAll st).wd = st.wd := rfl
+theorem ageAll_srvUp (st : State) : (ageAll st).srvUp = st.srvUp := rfl
+
 theorem off_step (c : Config) (st : State) (op : Op) (he : op.isEnv = true) (h : st.wd = .off) :
     (step c st op).1.wd = .off ∧ (step c st op).2 = [] := by
-  cases op <;> simp [Op.isEnv] at he <;> simp [step, tickWd, h]
+  cases op <;> simp [Op.isEnv] at he <;> simp [step, tickWd, ageAll, h]
 
 theorem off_run (c : Config) (ops : List Op) : ∀ st, (∀ op ∈ ops, op.isEnv = true) → st.wd = .off →
     (run c st ops).2 = [] := by
@@ -518,7 +531,7 @@ theorem off_run (c : Config) (ops : List Op) : ∀ st, (∀ op ∈ ops, op.isEnv
 /-- no credentials: the watchdog polls but never reconnects (network.py:386-392) -/
 theorem nocreds_step (c : Config) (st : State) (hc : c.credsOk = false) (h : st.wd = .idle) :
     (step c st .tick).1.wd = .idle ∧ (step c st .tick).2 = [] := by
-  simp [step, tickWd, h, hc]
+  simp [step, tickWd, ageAll, h, hc]
 
 theorem sleeping_ticks (c : Config) : ∀ (n : Nat) (st : State), st.wd = .sleeping (n + 1) →
     (run c st (List.replicate n .tick)).2 = [] ∧ (run c st (List.replicate n .tick)).1.wd = .sleeping 1 ∧
@@ -528,11 +541,11 @@ theorem sleeping_ticks (c : Config) : ∀ (n : Nat) (st : State), st.wd = .sleep
   | zero => intro st h; simp [run, h]
   | succ n ih =>
     intro st h
-    have hs : step c st .tick = ({ st with pp := agePP st.pp, wd := .sleeping (n + 1) }, []) := by
-      simp [step, tickWd, h]
-    have := ih { st with pp := agePP st.pp, wd := .sleeping (n + 1) } rfl
+    have hs : step c st .tick = ({ ageAll st with wd := .sleeping (n + 1) }, []) := by
+      simp [step, tickWd, ageAll, h]
+    have := ih { ageAll st with wd := .sleeping (n + 1) } rfl
     simp only [List.replicate_succ, run, hs]
-    simpa using this
+    simpa [show (ageAll st).srvUp = st.srvUp from rfl] using this
 
 theorem reconnect_attempt (c : Config) (st : State) : Obs.attempt ∈ (reconnect c st).2 := by
   unfold reconnect
@@ -549,20 +562,20 @@ theorem run_append (c : Config) (a b : List Op) : ∀ st,
 theorem idle_reconnects (c : Config) (st : State) (hw : st.wd = .idle) (hc : st.conn = .closed)
     (hk : c.credsOk = true) :
     Obs.attempt ∈ (run c st (List.replicate (reconnectTicks + 1) .tick)).2 := by
-  have h1 : step c st .tick = ({ st with pp := agePP st.pp, wd := .sleeping reconnectTicks }, []) := by
-    simp [step, tickWd, hw, hc, hk]
+  have h1 : step c st .tick = ({ ageAll st with wd := .sleeping reconnectTicks }, []) := by
+    simp [step, tickWd, ageAll, hw, hc, hk]
   have hrep : List.replicate (reconnectTicks + 1) Op.tick =
       Op.tick :: (List.replicate (reconnectTicks - 1) Op.tick ++ [Op.tick]) := by
     simp [reconnectTicks, List.replicate]
   rw [hrep]
   simp only [run, h1, run_append]
-  have hs := sleeping_ticks c (reconnectTicks - 1) { st with pp := agePP st.pp, wd := .sleeping reconnectTicks }
+  have hs := sleeping_ticks c (reconnectTicks - 1) { ageAll st with wd := .sleeping reconnectTicks }
     (by simp [reconnectTicks])
   obtain ⟨_, hs2, _⟩ := hs
   apply List.mem_append_right
   apply List.mem_append_right
   apply List.mem_append_left
-  simp only [step, tickWd, hs2]
+  simp only [step, tickWd, ageAll_wd, hs2]
   simp only [Nat.le_refl, if_true]
   exact reconnect_attempt c _
 
@@ -630,7 +643,7 @@ theorem winv_doStart (c : Config) (st : State) (h : WInv c st) : WInv c (doStart
     · cases ha : c.reconnectAuto <;> simp [WInv, ha]
     · exact winv_closeServer' c _ _ h.1
 
-theorem winv_doStop (c : Config) (st : State) (h : WInv c st) : WInv c (doStop st).1 := by
+theorem winv_doStop (c : Config) (st : State) (h : WInv c st) : WInv c (doStop c st).1 := by
   have hA : ({ st with wd := if covered .watchdog then .off else st.wd
                        logConn := st.logConn && !covered .logConnections } : State).wd ≠ .off →
       c.reconnectAuto = true := by
@@ -672,11 +685,14 @@ theorem winv_step (c : Config) (st : State) (op : Op) (h : WInv c st) (hi : Inv 
   | potentialParents => simp only [step]; split
                         · simpa [WInv] using h
                         · exact h
+  | searchRequest => simp only [step]; split
+                     · simpa [WInv] using h
+                     · exact h
   | loss r => simp only [step]; split
               · exact winv_closeServer' c r st h.1
               · exact h
   | tick => simp only [step]
-            exact winv_tickWd c _ (by simpa [WInv] using h) (by simpa [Inv] using hi)
+            exact winv_tickWd c _ (by simpa [WInv, ageAll] using h) (by simpa [Inv, ageAll] using hi)
   | setSrvUp b => simpa [step, WInv] using h
   | setSrvReply r => simpa [step, WInv] using h
   | stop => simp only [step]; split
@@ -715,23 +731,21 @@ theorem idle_reconnect_obs (c : Config) (st : State) (hw : st.wd = .idle) (hc : 
     (hk : c.credsOk = true) :
     ∃ s2 : State, (run c st (List.replicate (reconnectTicks + 1) .tick)).2 = (reconnect c s2).2 ∧
       s2.srvUp = st.srvUp := by
-  have h1 : step c st .tick = ({ st with pp := agePP st.pp, wd := .sleeping reconnectTicks }, []) := by
-    simp [step, tickWd, hw, hc, hk]
+  have h1 : step c st .tick = ({ ageAll st with wd := .sleeping reconnectTicks }, []) := by
+    simp [step, tickWd, ageAll, hw, hc, hk]
   have hrep : List.replicate (reconnectTicks + 1) Op.tick =
       Op.tick :: (List.replicate (reconnectTicks - 1) Op.tick ++ [Op.tick]) := by
     simp [reconnectTicks, List.replicate]
-  have hs := sleeping_ticks c (reconnectTicks - 1) { st with pp := agePP st.pp, wd := .sleeping reconnectTicks }
+  have hs := sleeping_ticks c (reconnectTicks - 1) { ageAll st with wd := .sleeping reconnectTicks }
     (by simp [reconnectTicks])
   obtain ⟨hs1, hs2, hs3⟩ := hs
-  refine ⟨{ (run c { st with pp := agePP st.pp, wd := .sleeping reconnectTicks }
-              (List.replicate (reconnectTicks - 1) .tick)).1 with
-            pp := agePP (run c { st with pp := agePP st.pp, wd := .sleeping reconnectTicks }
-              (List.replicate (reconnectTicks - 1) .tick)).1.pp }, ?_, ?_⟩
+  refine ⟨ageAll (run c { ageAll st with wd := .sleeping reconnectTicks }
+              (List.replicate (reconnectTicks - 1) .tick)).1, ?_, ?_⟩
   · rw [hrep]
     simp only [run, h1, run_append, hs1, List.nil_append, List.append_nil]
-    simp only [step, tickWd, hs2]
+    simp only [step, tickWd, ageAll_wd, hs2]
     simp
-  · simpa using hs3
+  · simpa [ageAll_srvUp] using hs3
 
 theorem reconnect_obs_attempt (c : Config) (st : State) :
     Obs.attempt ∈ (reconnect c st).2 ∧
